@@ -60,6 +60,18 @@ CLAIMS = {
   text="Lean 4 theorems C20_groups, C20_routing, C20_routing_own, C20_flatten, C20_terminal (for EVERY drain order), C20_terminal_once, C20_after_terminal, C20_world: for every item list, key function and attach policy group_by announces one group per distinct key in first-appearance order, routes each item once, in order, to its own group only, delivers the source terminal once to every group and the outer stream, and flattening reproduces the source. Correspondence: group_by over Subject/SubjectThreads, all scripts <=6 over 4 values x 4 key functions x terminals; python oracle from the script.",
   note=COMMON_NOTE + "Known finding: group_by(..).take(n) on the outer stream — after take completed, the source terminal never reaches the announced groups (subject filters finished observers).",
   technique="Lean 4 proof (induction over the item list; permutation-parametric terminal fan-out) + differential correspondence check"),
+ "C11": dict(
+  text="Lean 4 theorems C11_lazy_connect, C11_once, C11_multicast, C11_release (Fixed model), C11_release_code_counterexample, C11_release_partial: for EVERY history of subscribe/unsubscribe/source events, publish does not subscribe before connect(), share subscribes the source at most once (exactly once iff somebody subscribed) and multicasts to every present subscriber; the release clause is REFUTED for the code as it is (known finding) and proved for the repaired model and for cold sources. Correspondence: share/share_threads/publish on the real crate, all histories <=7 over 3 subscribers; python oracle with source-subscription and upstream-tap counters.",
+  note=COMMON_NOTE + "Known finding: share never releases its source (is_empty counts closed subscribers; the connect() subscription is dropped). No interval source in this suite.",
+  technique="Lean 4 proof (induction over histories; counterexample + partial theorem) + differential correspondence check"),
+ "C14": dict(
+  text="Lean 4 theorems C14_future, C14_collect, C14_stream, C14_future_result, C14_ready_when_terminated, C14_status_flag, C14_status_ready (all event lists: any source script with polls anywhere) for the repaired code, with the counterexample/_partial theorems for the code before the fixes; lock level (C14T): C14_lost_wakeup_counterexample for check-then-register and C14_no_lost_wakeup_fixed for register-then-recheck over all interleavings. Correspondence: to_future / collect().to_future() / to_stream / complete_status on the real crate with polls before, between and after source events; the lost-wakeup interleaving is replayed on the real code through hook H3.",
+  note=COMMON_NOTE + "std::sync, futures::channel and AtomicWaker are trusted; the race is replayed at one hooked yield point, other interleavings are covered by the LTS theorem only.",
+  technique="Lean 4 proof (induction over event lists; verified schedule enumeration for the 2-thread LTS) + differential correspondence check incl. deterministic race replay"),
+ "C19": dict(
+  text="Lean 4 theorems C19_once, C19_repeat_seq, C19_repeat_spacing, C19_never_early(_repeat,_nth), C19_cancelled_stays, C19_done_stays, C19_closed_sound, C19_decline_stops, clock/timer lemmas: for EVERY action list of a legal executor (any number of tasks, spurious polls, any order, any clock advance) over the scheduler model (schedule, Remote::poll, OnceTask, RepeatTask, handles); lock level (C19T): unsubscribe and poll exclude each other on the handle mutex. Correspondence: the same model drives suite `time` against the real scheduler code through hook H1 with cancellation injected at every phase and arbitrary fire/poll orders.",
+  note=COMMON_NOTE + "The scheduler-only transition system abstracts task bodies (their own scheduling effects are separate actions); SubscribeReturn handles' is_closed is covered by the correspondence only.",
+  technique="Lean 4 proof (invariants over all executor histories) + differential correspondence check on a virtual clock"),
 }
 
 def chk(pid, c):
